@@ -204,6 +204,13 @@ func (f *frame) contractCallClosure(ct *Contract, key string, fn *ssa.Function, 
 
 func (f *frame) contractCallEnv(ct *Contract, key string, fn *ssa.Function, extra map[string]Val, args []Val, resT *types.Tuple, ins ssa.Instruction) Val {
 	u := f.u
+	if fn != nil && !ct.Trusted && fn.Blocks != nil {
+		// the callee's contract is relied on: its body has to be verified in the same check
+		if u.eng.calledContracts == nil {
+			u.eng.calledContracts = map[string]bool{}
+		}
+		u.eng.calledContracts[key] = true
+	}
 	vars := map[string]Val{}
 	for k, v := range extra {
 		vars[k] = v
@@ -406,7 +413,7 @@ func (f *frame) contractCallEnv(ct *Contract, key string, fn *ssa.Function, extr
 			u.callOrd = map[string]int{}
 		}
 		u.callOrd[key]++
-		u.obls = append(u.obls, &Obligation{Name: fmt.Sprintf("cover.%s.after-call%d.%s#%d", f.key, u.covCtr, shortKey(key), u.callOrd[key]), Kind: "cover", Goal: not(f.curReach), NItems: len(u.items), Fn: f.key, Cover: true,
+		u.obls = append(u.obls, &Obligation{Name: fmt.Sprintf("cover.%s.after-call%d.%s#%d", f.key, u.covCtr, shortKey(key), u.callOrd[key]), Kind: "cover", Goal: not(f.curReach), NItems: len(u.items), Fn: f.key, Cover: true, Blk: u.curBlk,
 			Src: "the path continues after the call of " + key + " at " + f.pos(ins) + " (callee contract consistent here)"})
 	}
 	return packResults(res, resT)
